@@ -3,11 +3,12 @@
 # Confirms a seeded change in a scratch worktree of /repo (existing tests pass
 # with it, the demonstration fails with it and passes without it), runs the
 # property's quick check against it through VERIF_REPO, and prints a summary.
+# EVALSEED_BASE=<commit> evaluates a change written against an earlier /repo commit.
 set -u
 id=$1; seed=$(realpath "$2"); pkg=$3; tags=${4:-}
 export GOFLAGS=-mod=mod GOPROXY=off GOSUMDB=off GOTOOLCHAIN=local
 wt=$(mktemp -d /tmp/evalseed-XXXXXX); rmdir "$wt"
-git -C /repo worktree add -q --detach "$wt" HEAD || exit 2
+git -C /repo worktree add -q --detach "$wt" "${EVALSEED_BASE:-HEAD}" || exit 2
 trap 'git -C /repo worktree remove --force "$wt" >/dev/null 2>&1; rm -rf "$wt"' EXIT
 demo=$(ls "$seed"/demo*_test.go 2>/dev/null | head -1)
 tagarg=""; [ -n "$tags" ] && tagarg="-tags $tags"
